@@ -228,7 +228,49 @@ def special_functions(ctx, rng):
                              f"algorithms.{name} / core.Algorithm.evaluate_all")
                     break
         ctx.case(("signed-zero", name), True)
-    ctx.count("special_function_runs", 8)
+    # optimum in a corner of the box: after a few generations most variables sit exactly on a bound, where the polynomial mutation
+    # returns some of the variables it touches unchanged; checked after every step
+    def _corner_f(x):
+        return [sum(x) + 0.5 * x[0] * x[0]]
+    for name, mk in (("EvolutionaryStrategy", lambda p, g: A.EvolutionaryStrategy(p, population_size=6, offspring_size=6, generator=g)), ("PAES", lambda p, g: A.PAES(p, generator=g)),
+                     ("GeneticAlgorithm", lambda p, g: A.GeneticAlgorithm(p, population_size=8, offspring_size=8, generator=g)),
+                     ("SMPSO", lambda p, g: A.SMPSO(p, swarm_size=8, leader_size=8, generator=g)), ("NSGAII", lambda p, g: A.NSGAII(p, population_size=8, generator=g))):
+        single = name in ("EvolutionaryStrategy", "GeneticAlgorithm")
+        f = _corner_f if single else (lambda x: [_corner_f(x)[0], sum(v * v for v in x)])
+        p = Problem(3, 1 if single else 2, function=f)
+        p.types[:] = Real(0, 1)
+        _random.seed(rng.randrange(2 ** 31))
+        # the initial population already has variables exactly on their bounds (a population that has converged onto the boundary)
+        start = []
+        for _ in range(8):
+            s0 = C.Solution(p)
+            s0.variables[:] = [rng.choice([0.0, 1.0, rng.random()]) for _ in range(3)]
+            start.append(s0)
+        alg = plat_call(lambda: mk(p, InjectedPopulation(start)))
+        inp = {"algorithm": name, "function": "sum(x) + x0^2/2 on [0,1]^3 (optimum in the corner: variables sit on their bounds)"}
+        if isinstance(alg, str):
+            ctx.notes.append(f"special-function run aborted: {name}: {alg}")
+            continue
+        bad = False
+        for step in range(120):
+            r = plat_call(alg.step)
+            if isinstance(r, str):
+                ctx.notes.append(f"special-function run aborted: {name}: {r}")
+                break
+            for coll, sols in tracer.exposed(alg).items():
+                for s_ in sols:
+                    want = f(list(s_.variables))
+                    if not s_.evaluated or list(s_.objectives) != want:
+                        ctx.fail("objectives-do-not-belong-to-variables", dict(inp, step=step, collection=coll, variables=[repr(v) for v in s_.variables]), list(s_.objectives), want,
+                                 f"algorithms.{name} / operators (offspring changed but still marked evaluated)")
+                        bad = True
+                        break
+                if bad:
+                    break
+            if bad:
+                break
+        ctx.case(("corner-optimum", name), True)
+    ctx.count("special_function_runs", 13)
 
 
 def plat_call(f):
